@@ -15,6 +15,7 @@ import (
 	"verif/rig"
 	"verif/wire"
 	"vh/gen/base"
+	"vh/gen/c07scopes"
 	"vh/gen/mainsvc"
 )
 
@@ -107,6 +108,29 @@ func genPayload(r *rand.Rand, id int32) *mainsvc.Payload {
 		}
 	}
 	return &mainsvc.Payload{Bmap: &mainsvc.BigMap{N: id, M: m}}
+}
+
+func genNote(r *rand.Rand, id int32) *c07scopes.Note {
+	n := &c07scopes.Note{ID: id, Text: genText(r, sizeClass(r))}
+	if r.Intn(2) == 0 {
+		n.Nums = make([]int64, r.Intn(5))
+		for i := range n.Nums {
+			n.Nums[i] = r.Int63() - r.Int63()
+		}
+	}
+	return n
+}
+
+// canonNote keeps nil and empty apart for the optional list.
+func canonNote(n *c07scopes.Note) string {
+	if n == nil {
+		return "<nil>"
+	}
+	nums := "-"
+	if n.Nums != nil {
+		nums = fmt.Sprint(n.Nums)
+	}
+	return fmt.Sprintf("Note{%d %q %s}", n.ID, n.Text, nums)
 }
 
 // canonThing / canonPayload: value equality with nil == empty for the
